@@ -51,7 +51,7 @@ impl Property for C05 {
         "C05"
     }
     fn tape_sizes(&self) -> (usize, usize, usize) {
-        (600, 400, 4)
+        (600, 400, 48)
     }
     fn cases(&self, tier: Tier) -> u64 {
         match tier {
